@@ -114,6 +114,9 @@ type world struct {
 	last     stats
 	haveLast bool
 
+	probeRand    *rand.Rand
+	floodDone    bool
+	allocClass   map[string]bool // classes that produced an allocation violation in this world
 	crashedClass map[string]int
 	hugeSeen     map[string]bool // classes whose >=512 MiB declaration already produced an alloc violation here
 	allocBound   uint64
@@ -681,6 +684,7 @@ func (w *world) report(s *session, o outcome) {
 			}
 		}
 		w.run.Count("alloc_violations", 1)
+		w.allocClass[class] = true
 		if hc := s.hugeClass(); hc != "" {
 			w.hugeSeen[hc] = true
 		}
@@ -854,6 +858,184 @@ func (w *world) finalCompletion() {
 	w.run.Count("final_completions_exact", 1)
 }
 
+// ---------------------------------------------------------------------------
+// Admission: hostile handshakes must not use up a torrent's connection slots.
+
+// probeAdmission opens a fresh honest connection to torrent t: the handshake
+// must be answered (deterministic: answered or hung up). ok=false when the
+// child is gone or did neither within the watchdog.
+func (w *world) probeAdmission(t int, r *rand.Rand) (admitted, ok bool) {
+	g := w.geoms[t]
+	pc, err := dialPeer(w.ch.port)
+	if err != nil {
+		return false, false
+	}
+	defer pc.close()
+	if err := pc.send(frame(handshakeMsg(g, randPeerID(r), bitsetBytes(g.N, func(int) bool { return false })))); err != nil {
+		return false, true
+	}
+	f, got := pc.next(20 * time.Second)
+	if !got {
+		return false, false
+	}
+	if f.Err != nil {
+		return false, w.ch.alive()
+	}
+	return f.Msg.Type == p2p.Message_BITFIELD, true
+}
+
+// waitQuiet waits (bounded) until the child's goroutines / fds are back to the
+// baseline, i.e. every connection opened so far has been torn down.
+func (w *world) waitQuiet(d time.Duration) bool {
+	deadline := time.Now().Add(d)
+	for {
+		st, err := w.ch.stats()
+		if err != nil {
+			return false
+		}
+		if st.Goroutines <= w.base.Goroutines && w.ch.fds() <= w.baseFds {
+			w.last, w.haveLast = st, true
+			return true
+		}
+		if time.Now().After(deadline) {
+			return false
+		}
+		time.Sleep(3 * time.Millisecond)
+	}
+}
+
+const floodSize = 12 // > MaxOpenConnectionsPerTorrent (10, shipped default)
+
+// floodCheck: for every hostile handshake class, floodSize consecutive hostile
+// handshakes of that class (fresh peer ids), then an honest newcomer must still
+// be admitted to both torrents. A refusal means the hostile handshakes leaked
+// connection slots ("keeps serving" fails for every future peer).
+func (w *world) floodCheck(r *rand.Rand) error {
+	w.floodDone = true
+	// the class list and the frames are functions of the seed only: up to
+	// floodSize frames per (class, target torrent) out of a fixed-size sample
+	type fkey struct {
+		class string
+		t     int
+	}
+	frames := map[fkey][][]byte{}
+	stall := map[string]bool{}
+	classes := map[string]bool{}
+	for i := 0; i < 4000; i++ {
+		t := i % 2
+		fr := genHandshakeFrame(r, w.geoms[t], w.geoms[1-t])
+		p := classifyFrame(stHandshake, fr, w.geoms, w.geoms[t])
+		if !p.Hostile || p.Huge {
+			continue
+		}
+		classes[p.Class] = true
+		stall[p.Class] = p.Stall
+		k := fkey{p.Class, t}
+		if len(frames[k]) < floodSize {
+			frames[k] = append(frames[k], fr)
+		}
+	}
+	var names []string
+	for c := range classes {
+		names = append(names, c)
+	}
+	sort.Strings(names)
+	for _, class := range names {
+		if w.crashedClass[class] > 0 || w.allocClass[class] {
+			// already reported for this world; not re-sent (each one costs a restart
+			// or hundreds of MiB in the child)
+			continue
+		}
+		sent := 0
+		var sample [][]byte
+		for t := 0; t < 2 && w.ch.alive(); t++ {
+			for _, fr := range frames[fkey{class, t}] {
+				sent++
+				if len(sample) < 2 {
+					sample = append(sample, fr)
+				}
+				pc, err := dialPeer(w.ch.port)
+				if err != nil {
+					break
+				}
+				_ = pc.send(fr)
+				wait := 10 * time.Second
+				if stall[class] {
+					wait = 30 * time.Millisecond
+				}
+				for {
+					f, ok := pc.next(wait)
+					if !ok || f.Err != nil {
+						break
+					}
+					wait = 30 * time.Millisecond // answered: nothing more is expected
+				}
+				pc.close()
+			}
+		}
+		if sent == 0 {
+			continue
+		}
+		w.run.Count("flood_classes_run", 1)
+		w.logf("flood %s: %d handshakes sent", class, sent)
+		w.run.Count("flood_handshakes_sent", int64(sent))
+		quiet := w.waitQuiet(30 * time.Second)
+		w.logf("flood %s: quiet=%v", class, quiet)
+		desc := map[string]interface{}{
+			"world": w.name, "class": class, "hostile_handshakes_sent": sent, "sample_frames_hex": []string{hexCap(sample[0])},
+			"role": w.role, "bandwidth_limiter_enabled": w.limiter,
+		}
+		if !w.ch.alive() {
+			site := parseCrash(w.ch.stderrPath)
+			w.ch.kill()
+			w.crashedClass[class]++
+			w.run.Violation(w.signature(site.Component, class, ""), w.name+"|flood|"+class, map[string]interface{}{
+				"symptom": site.Kind, "headline": site.Headline, "first_kraken_frame": site.Func, "at": site.File,
+				"stderr_excerpt": site.Excerpt, "input": desc,
+			})
+			if err := w.start(); err != nil {
+				return err
+			}
+			continue
+		}
+		refused := []int{}
+		for t := 0; t < 2; t++ {
+			adm, ok := w.probeAdmission(t, r)
+			if !ok {
+				w.run.Inconclusive(fmt.Sprintf("%s flood %s: admission probe got neither an answer nor a hang-up within the watchdog", w.name, class))
+				continue
+			}
+			if !adm {
+				refused = append(refused, t)
+			}
+		}
+		if ok, why := w.canaryCheck(0); !ok && why != "watchdog" && w.ch.alive() {
+			w.run.Violation(w.signature("scheduler", class, "canary-"+why), w.name+"|flood|"+class, desc)
+			w.canary.close()
+			_ = w.connectCanary()
+		}
+		if len(refused) > 0 {
+			desc["torrents_refusing_an_honest_newcomer"] = refused
+			desc["quiet_before_probe"] = quiet
+			desc["note"] = "only the canary was connected; the newcomer used a fresh peer id (no blacklist entry); max_open_conn is the shipped default 10"
+			w.crashedClass[class]++ // not re-sent to this world's children
+			w.run.Count("flood_leak_classes", 1)
+			w.run.Violation(w.signature("scheduler", class, "new-connections-refused"), w.name+"|flood|"+class, desc)
+			w.ch.kill()
+			if err := w.start(); err != nil {
+				return err
+			}
+			continue
+		}
+		if !quiet {
+			w.run.Count("flood_not_quiet_within_watchdog", 1)
+		}
+		w.run.Count("flood_classes_admission_ok", 1)
+		w.waitQuiet(30 * time.Second)
+	}
+	return nil
+}
+
 func (w *world) runAll(r *rand.Rand, n int, replayIdx int) {
 	if err := w.start(); err != nil {
 		w.run.Inconclusive(w.name + ": cannot start child: " + err.Error())
@@ -954,6 +1136,30 @@ func (w *world) runAll(r *rand.Rand, n int, replayIdx int) {
 			}
 		}
 		w.report(s, o)
+		if s.hs.Class == "valid-handshake" && !o.HandshakeAnswered && o.ClosedByChild {
+			// A fully valid handshake from a fresh peer id was hung up on. Legitimate
+			// only if the torrent is at capacity, and only the canary is connected.
+			w.run.Count("valid_handshakes_refused", 1)
+			w.waitQuiet(30 * time.Second)
+			if adm, ok := w.probeAdmission(s.Target, w.probeRand); ok && !adm {
+				// find the class that leaks connection slots (fresh children), have it
+				// suppressed for the rest of this world, and go on
+				before := w.run.Counter("flood_leak_classes")
+				w.ch.kill()
+				if err := w.start(); err == nil && !w.floodDone {
+					err = w.floodCheck(w.run.Rand("flood/" + w.name))
+				} else if err != nil {
+					w.run.Inconclusive(w.name + ": cannot restart child: " + err.Error())
+					return
+				}
+				if w.run.Counter("flood_leak_classes") == before {
+					w.run.Violation(w.signature("scheduler", "accumulated-hostile-sessions", "new-connections-refused"), fmt.Sprintf("%s|%d", w.name, s.Index),
+						map[string]interface{}{"input": w.describe(s), "role": w.role, "bandwidth_limiter_enabled": w.limiter,
+							"note": "an honest newcomer is refused although only the canary is connected; not reproduced by any single-class flood"})
+				}
+				continue
+			}
+		}
 		if !o.Quiesced {
 			w.run.Count("sessions_not_quiesced_within_watchdog", 1)
 			w.logf("session %d not quiesced", k)
@@ -973,6 +1179,12 @@ func (w *world) runAll(r *rand.Rand, n int, replayIdx int) {
 		return
 	}
 	w.quiesce("end")
+	if replayIdx < 0 && !w.floodDone {
+		if err := w.floodCheck(w.run.Rand("flood/" + w.name)); err != nil {
+			w.run.Inconclusive(w.name + ": cannot restart child: " + err.Error())
+			return
+		}
+	}
 	if replayIdx < 0 {
 		w.finalCompletion()
 		if !w.ch.alive() {
@@ -1043,7 +1255,7 @@ func TestC14(t *testing.T) {
 				w := &world{
 					name: name, role: role, limiter: limiter, run: run, bin: bin,
 					dir:          filepath.Join(dir, name),
-					crashedClass: map[string]int{}, hugeSeen: map[string]bool{},
+					crashedClass: map[string]int{}, hugeSeen: map[string]bool{}, allocClass: map[string]bool{}, probeRand: run.Rand("probe/" + name),
 				}
 				_ = os.MkdirAll(w.dir, 0o755)
 				maxLen := 0
